@@ -18,9 +18,10 @@ Proved for all inputs: `field_inverse_index`, `field_inverse_idb_partial`, `fiel
 `sortTarHeaders_parent_adjacent`; `passwd_roundtrip`, `group_roundtrip` (struct → bytes → struct; the
 member list may be empty since the repair of F16e) and `passwd_roundtrip_bytes`, `group_roundtrip_bytes`
 (canonical bytes → struct → bytes).  The full statements that the unchanged code violates are kept as
-`def … : Prop` with a proved negation (`passwd_roundtrip_unpadded`, `idb_read_write_full`,
+`def … : Prop` with a proved negation (`idb_read_write_full`,
 `idb_write_read`); the statements the PINNED tree violated before a repair are kept for the pinned
-expression (`pinned_group_roundtrip` / `group_roundtrip_fails`).
+expressions (`pinned_group_roundtrip` / `group_roundtrip_fails`, `pinned_passwd_roundtrip` /
+`passwd_roundtrip_unpadded_fails`, `pinned_group_roundtrip_padded` / `group_roundtrip_padded_fails`).
 -/
 import Apko.Proofs.Lemmas.FormatsIndex
 import Apko.Proofs.Lemmas.FormatsPasswd
@@ -93,19 +94,20 @@ theorem tie_passwd_order : Generated.userFormat = "%s:%s:%d:%d:%s:%s:%s\n" ∧
     Generated.groupFormat = "%s:%s:%d:%s\n" ∧
     Generated.groupWriteArgs = ["ge.GroupName", "ge.Password", "ge.GID", "members"] := by decide
 
-/-- the complete statement list of `GroupEntry.Parse` (after the repair of F16e: an empty member field is
-no member).  `parseGroup` / `splitMembers` were written against exactly these statements; the pinned
+/-- the complete statement list of `GroupEntry.Parse` (after the repairs of F16e: an empty member field is
+no member, and F16f: only line terminators are trimmed).  `parseGroup` / `splitMembers` were written against exactly these statements; the pinned
 form `ge.Members = strings.Split(parts[3], ",")` is `pinnedParseGroup`. -/
 theorem tie_groupParse : Generated.stmts_groupParse =
-    ["line = strings.TrimSpace(line)", "parts := strings.Split(line, \":\")",
+    ["line = strings.TrimRight(line, \"\\r\\n\")", "parts := strings.Split(line, \":\")",
      "if len(parts) != 4 { return fmt.Errorf(\"malformed line, contains %d parts, expecting 4\", len(parts)) }",
      "ge.GroupName = parts[0]", "ge.Password = parts[1]", "gid, err := strconv.Atoi(parts[2])",
      "if err != nil { return }", "ge.GID = uint32(gid)", "ge.Members = nil",
      "if parts[3] != \"\" { ge.Members = strings.Split(parts[3], \",\") }", "return nil"] := by rfl
 
-/-- the complete statement list of `UserEntry.Parse` -/
+/-- the complete statement list of `UserEntry.Parse` (after the repair of F16f: `strings.TrimRight(line,
+"\r\n")` = `trimEOL`; the pinned `strings.TrimSpace(line)` is `pinnedParseUser`) -/
 theorem tie_userParse : Generated.stmts_userParse =
-    ["line = strings.TrimSpace(line)", "parts := strings.Split(line, \":\")",
+    ["line = strings.TrimRight(line, \"\\r\\n\")", "parts := strings.Split(line, \":\")",
      "if len(parts) != 7 { return fmt.Errorf(\"malformed line, contains %d parts, expecting 7\", len(parts)) }",
      "ue.UserName = parts[0]", "ue.Password = parts[1]", "uid, err := strconv.Atoi(parts[2])",
      "if err != nil { return }", "ue.UID = uint32(uid)", "gid, err := strconv.Atoi(parts[3])",
@@ -125,6 +127,28 @@ theorem tie_passwd_loops : Generated.stmts_userLoad =
     Generated.stmts_groupWrite =
     ["members := strings.Join(ge.Members, \",\")",
      "_, err := fmt.Fprintf(w, \"%s:%s:%d:%s\\n\", ge.GroupName, ge.Password, ge.GID, members)", "return err"] := ⟨rfl, rfl, rfl⟩
+
+/-- the complete file loop of `AddInstalledPackage`: the mask (after the repair of F16d), the `F:`/`M:`/`R:`/`a:`
+lines with their defaults, the `Z:` line and its two checksum forms (`fileLines` was written against it) -/
+theorem tie_fileLoop : Generated.stmts_fileLoop =
+    ["perm := f.Mode & 07777",
+      "user := f.Uid",
+      "group := f.Gid",
+      "if f.Typeflag == tar.TypeDir {",
+      "dirName := strings.TrimSuffix(f.Name, fmt.Sprintf(\"%c\", filepath.Separator))",
+      "pkgLines = append(pkgLines, fmt.Sprintf(\"F:%s\", dirName))",
+      "if perm != 0o755 || user != 0 || group != 0 { pkgLines = append(pkgLines, fmt.Sprintf(\"M:%d:%d:%04o\", user, group, perm)) }",
+      "} else {",
+      "pkgLines = append(pkgLines, fmt.Sprintf(\"R:%s\", filepath.Base(f.Name)))",
+      "if perm != 0o644 || user != 0 || group != 0 { pkgLines = append(pkgLines, fmt.Sprintf(\"a:%d:%d:%04o\", user, group, perm)) }",
+      "if f.PAXRecords != nil { if checksum := f.PAXRecords[paxRecordsChecksumKey]; checksum != \"\" { if !strings.HasPrefix(checksum, \"Q1\") { hexsum, err := hex.DecodeString(checksum) if err != nil { return err } checksum = \"Q1\" + base64.StdEncoding.EncodeToString(hexsum) } pkgLines = append(pkgLines, fmt.Sprintf(\"Z:%s\", checksum)) } }",
+      "}"] := by rfl
+
+/-- F16d (repaired): with the pinned mask a setuid file and a sticky directory were listed without the bit -/
+theorem mode_special_bits_lost :
+    oct4 (pinnedPerm 0o4755).toNat = "0755".toList ∧ oct4 (pinnedPerm 0o1777).toNat = "0777".toList ∧
+    permLine 'a' ⟨['s'], false, 0o4755, 0, 0, []⟩ = "a:0:0:4755".toList ∧
+    permLine 'M' ⟨['t'], true, 0o1777, 0, 0, []⟩ = "M:0:0:1777".toList := by decide
 
 /-! ## `field_inverse`: decidable facts over the regenerated tables -/
 
@@ -213,17 +237,19 @@ theorem group_empty_members_lost :
     pinnedParseGroup "nogroup:x:65533:".toList = some ⟨"nogroup".toList, ['x'], 65533, [[]]⟩ ∧
     parseGroup "nogroup:x:65533:".toList = some ⟨"nogroup".toList, ['x'], 65533, []⟩ := by decide
 
-/-- F16f: white space at the ends of a passwd line is trimmed away -/
+/-- F16f (repaired): the pinned reader trimmed white space at the ends of a passwd line away; today the
+fields come back as written -/
 theorem passwd_trim_lost :
-    (parseUser " a:x:1:1::/:/bin/sh ".toList).map (fun u => (u.name, u.shell)) = some (['a'], "/bin/sh".toList) := by
+    (pinnedParseUser " a:x:1:1::/:/bin/sh ".toList).map (fun u => (u.name, u.shell)) = some (['a'], "/bin/sh".toList) ∧
+    (parseUser " a:x:1:1::/:/bin/sh ".toList).map (fun u => (u.name, u.shell)) = some (" a".toList, "/bin/sh ".toList) := by
   decide
 
 /-! ## passwd / group -/
 
 /-- `passwd_roundtrip` (struct → bytes → struct): `UserFile.Load` of what `UserFile.Write` wrote gives
 the entries back, for every list of well-formed entries (`WFUser`: fields free of `:`/LF/CR, ids in
-`uint32`, no white space at the start of the name or the end of the shell — F16f —, line within the
-scanner buffer). -/
+`uint32`, line within the scanner buffer; white space anywhere in a field, also at the outer ends, is
+covered since the repair of F16f). -/
 theorem passwd_roundtrip (us : List User) (h : ∀ u ∈ us, WFUser u = true) :
     loadUsers (writeUsers us) = some us :=
   loadWith_write parseUser renderUser userLine renderUser_eq us
@@ -232,7 +258,7 @@ theorem passwd_roundtrip (us : List User) (h : ∀ u ∈ us, WFUser u = true) :
     (fun u hu => (WFUser_spec u (h u hu)).fit)
 
 /-- `passwd_roundtrip` (bytes → struct → bytes): a canonical passwd file (every line LF-terminated,
-not padded with white space, within the scanner buffer, ids printed the way `%d` prints a `uint32`)
+not ending in CR, within the scanner buffer, ids printed the way `%d` prints a `uint32`)
 that loads is reproduced byte for byte by writing what was loaded. -/
 theorem passwd_roundtrip_bytes (t : Text) (l : List User) (hc : canonText canonUserLine t = true)
     (hl : loadUsers t = some l) : writeUsers l = t :=
@@ -243,7 +269,7 @@ theorem passwd_roundtrip_bytes (t : Text) (l : List User) (hc : canonText canonU
 /-- `group_roundtrip` (struct → bytes → struct), the full statement: `GroupFile.Load` of what
 `GroupFile.Write` wrote gives the entries back, for every list of well-formed entries (`WFGroup`: fields
 free of `:`/LF/CR, gid in `uint32`, member names free of `,`, any number of members — none included, F16e
-repaired —, no white space at the outer ends — F16f —, line within the scanner buffer; the one list the
+repaired —, white space allowed everywhere — F16f repaired —, line within the scanner buffer; the one list the
 format cannot represent, `[""]`, is excluded: `group_empty_member_ambiguous`). -/
 theorem group_roundtrip (gs : List Group) (h : ∀ g ∈ gs, WFGroup g = true) :
     loadGroups (writeGroups gs) = some gs :=
@@ -281,17 +307,45 @@ theorem group_empty_member_ambiguous (n pw : Text) (gid : Nat) :
 theorem group_roundtrip_single_empty_member :
     loadGroups (writeGroups [⟨['g'], ['x'], 1, [[]]⟩]) = some [⟨['g'], ['x'], 1, []⟩] := by decide
 
-/-- the full statement of `passwd_roundtrip` without the padding clause of `WFUser` … -/
-def passwd_roundtrip_unpadded : Prop :=
-  ∀ us : List User, (∀ u ∈ us, WFUser { u with name := 'x' :: u.name, shell := u.shell ++ ['x'] } = true) →
-    loadUsers (writeUsers us) = some us
+/-- the statement of `passwd_roundtrip` about the reader of the pinned tree (`strings.TrimSpace`) … -/
+def pinned_passwd_roundtrip : Prop :=
+  ∀ us : List User, (∀ u ∈ us, WFUser u = true) → pinnedLoadUsers (writeUsers us) = some us
+
+def paddedUser : User := ⟨" a".toList, ['x'], 1, 1, [], ['/'], "/bin/sh ".toList⟩
 
 /-- … is false: F16f -/
-theorem passwd_roundtrip_unpadded_fails : ¬ passwd_roundtrip_unpadded := by
+theorem passwd_roundtrip_unpadded_fails : ¬ pinned_passwd_roundtrip := by
   intro h
-  have := h [⟨" a".toList, ['x'], 1, 1, [], ['/'], "/bin/sh ".toList⟩] (by decide)
+  have := h [paddedUser] (by decide)
   revert this
   decide
+
+/-- … and held exactly under the padding clause that `WFUser` used to carry -/
+theorem pinned_passwd_roundtrip_partial (us : List User) (h : ∀ u ∈ us, WFUser u = true)
+    (hp : ∀ u ∈ us, unpaddedUser u = true) : pinnedLoadUsers (writeUsers us) = some us :=
+  loadWith_write pinnedParseUser renderUser userLine renderUser_eq us
+    (fun u hu => pinnedParseUser_userLine u (WFUser_spec u (h u hu)) (hp u hu))
+    (fun u hu => userLine_lineSafe u (WFUser_spec u (h u hu)))
+    (fun u hu => (WFUser_spec u (h u hu)).fit)
+
+/-- the same for the group reader with the pinned trimming -/
+def pinned_group_roundtrip_padded : Prop :=
+  ∀ gs : List Group, (∀ g ∈ gs, WFGroup g = true) → pinnedTrimLoadGroups (writeGroups gs) = some gs
+
+def paddedGroup : Group := ⟨"\twheel".toList, ['x'], 10, ["root".toList, "u ".toList]⟩
+
+theorem group_roundtrip_padded_fails : ¬ pinned_group_roundtrip_padded := by
+  intro h
+  have := h [paddedGroup] (by decide)
+  revert this
+  decide
+
+theorem pinned_group_roundtrip_partial (gs : List Group) (h : ∀ g ∈ gs, WFGroup g = true)
+    (hp : ∀ g ∈ gs, unpaddedGroup g = true) : pinnedTrimLoadGroups (writeGroups gs) = some gs :=
+  loadWith_write pinnedTrimParseGroup renderGroup groupLine renderGroup_eq gs
+    (fun g hg => pinnedTrimParseGroup_groupLine g (WFGroup_spec g (h g hg)) (hp g hg))
+    (fun g hg => groupLine_lineSafe g (WFGroup_spec g (h g hg)))
+    (fun g hg => (WFGroup_spec g (h g hg)).fit)
 
 def sampleUser : User := ⟨"build user".toList, ['x'], 4294967295, 0, "a, b".toList, "/home/build".toList, []⟩
 def sampleGroup : Group := ⟨"wheel".toList, [], 10, ["root".toList, [], "build user".toList]⟩
@@ -299,6 +353,7 @@ def sampleGroup : Group := ⟨"wheel".toList, [], 10, ["root".toList, [], "build
 example : WFUser sampleUser = true := by decide
 example : WFGroup sampleGroup = true := by decide
 example : WFGroup noMembers = true := by decide
+example : WFUser paddedUser = true ∧ WFGroup paddedGroup = true := by decide
 example : canonText canonUserLine (writeUsers [sampleUser, sampleUser]) = true := by decide
 example : canonText canonGroupLine (writeGroups [sampleGroup, noMembers]) = true := by decide
 
@@ -336,7 +391,9 @@ relative and free of LF/CR, owners in `int64`) whose rendering succeeds and keep
 scanner buffer, `ParseInstalled` of what the `AddInstalledPackage` calls wrote returns, package by
 package, `readBack`: every package field except `install_if` (F16a-idb), and for every header that
 `sortTarHeaders` emits (F16h: top-level files and childless top-level directories are not emitted)
-path, dir / non-dir, permission bits (`& 0o777`, F16d), uid and gid (no checksum, F16c). -/
+path, dir / non-dir, permission bits incl. setuid / setgid / sticky (`& 0o7777`, F16d repaired: every mode
+a tar header can carry in its permission field comes back, `fileProj_keeps`), uid and gid (no checksum,
+F16c). -/
 theorem idb_read_write (c : Codec) (hc : c.Lawful) (ips : List IPkg) (t : Text)
     (hr : renderInstalledAll c idbRows ips = .ok t) (hwf : ∀ ip ∈ ips, WFIPkg ip = true)
     (hfit : linesFit defaultTokenMax (rawLines t) = true) :
@@ -360,8 +417,8 @@ theorem idb_files_read_write (c : Codec) (hc : c.Lawful) (ip : IPkg) (t : Text)
 /-- what `fileProj` keeps -/
 theorem fileProj_keeps (f : FileRec) :
     (fileProj f).name = f.name ∧ (fileProj f).isDir = f.isDir ∧ (fileProj f).uid = f.uid ∧
-    (fileProj f).gid = f.gid ∧ (fileProj f).mode = f.mode.emod 512 ∧
-    (0 ≤ f.mode → f.mode ≤ 0o777 → (fileProj f).mode = f.mode) := by
+    (fileProj f).gid = f.gid ∧ (fileProj f).mode = f.mode.emod 4096 ∧
+    (0 ≤ f.mode → f.mode ≤ 0o7777 → (fileProj f).mode = f.mode) := by
   refine ⟨rfl, rfl, rfl, rfl, rfl, ?_⟩
   intro h1 h2
   exact Int.emod_eq_of_lt h1 (by omega)
@@ -382,7 +439,7 @@ def idb_read_write_full : Prop :=
     (∀ ip ∈ ips, WFIPkg ip = true) → linesFit defaultTokenMax (rawLines t) = true →
     parseInstalled c idbCases idbGuarded t = .ok (ips.map fun ip => ⟨ip.pkg, (sortHeaders ip.files).getD []⟩)
 
-/-- … is false: F16a-idb (`install_if`, even when empty), F16c (checksum), F16d (mode bits above 0o777) -/
+/-- … is false: F16a-idb (`install_if`, even when empty), F16c (checksum) -/
 theorem idb_read_write_full_fails_installIf :
     readBack ⟨{ name := ['a'] }, []⟩ ≠ ⟨{ name := ['a'] }, []⟩ := by
   rw [readBack, sortHeaders_nil]; decide
